@@ -129,9 +129,13 @@ func (s *Server) rejectPrivateAndLoopbackIPAction(_ context.Context, in egress.I
 			}
 		}
 	} else if len(ip) == 0 {
-		return egress.Action{
-			Action: appctlpb.EgressAction_DIRECT,
+		if req.Command != constant.Socks5ConnectCmd {
+			return egress.Action{
+				Action: appctlpb.EgressAction_DIRECT,
+			}
 		}
+		// Connecting to an empty host name reaches the local machine.
+		ip = net.ParseIP("127.0.0.1")
 	}
 
 	// Connecting to an unspecified address (0.0.0.0 or ::) reaches the local machine,
